@@ -1,4 +1,4 @@
-import Snel.Lemmas.ShardShutdown
+import Snel.Lemmas.ShardWal
 /-!
 # C01 — applied writes survive any crash and restart, exactly once
 
@@ -35,6 +35,33 @@ theorem C01_store_durable_partial (s : Shard) (e : Ev) (h : s.walOrphan = false)
     e.k ∈ visibleKeys (step (store s e) .crash) := by
   obtain ⟨f, hf, he⟩ := store_in_wal s e h
   exact C01_restart_recovers_durable_state (store s e) e (Or.inr ⟨f, hf, he⟩)
+
+/-- Durability at EVERY crash point, aligned regime (PARTIAL: single process lifetime, no
+manual FLUSH): for every history of stores and flush-worker steps — any interleaving, any number
+of queued rotations — a process kill at the end (i.e. at any step boundary: between two
+commands, after the zone files, after the index entry, after publication, after the release of
+the passive buffer, after the WAL cleanup) followed by a restart shows every stored event.
+The proof maintains that the WAL log id and the level-0 segment id advance together, so that
+`cleanup_up_to(segment_id + 1)` removes only logs whose entries are in segment files and never the
+open log. Manual FLUSH and restarts break exactly that alignment (`C01_durable_fails`). -/
+theorem C01_durable_partial (cap k : Nat) (ops : List Op) (h : ∀ o ∈ ops, o.auto = true) :
+    ∀ e ∈ storedEvents ops, e.k ∈ visibleKeys (step (runOps (Shard.init cap k) ops) .crash) := by
+  intro e he
+  have hd := (runOps_durable ops (init_inv cap k) (init_aligned cap k) h).2.2.2 e he
+  apply C01_restart_recovers_durable_state
+  rcases hd with ⟨p, hp, hpe⟩ | hw
+  · exact Or.inl ⟨p, hp, hpe⟩
+  · exact Or.inr hw
+
+/-- Non-vacuity: a crash in the middle of a flush (files written, index not yet saved) with a
+second rotation queued. -/
+example : (∀ o ∈ [Op.store ⟨1,0,0⟩, .store ⟨2,0,0⟩, .flushStep, .store ⟨3,0,0⟩, .store ⟨4,0,0⟩, .store ⟨5,0,0⟩],
+      o.auto = true) ∧
+    visibleKeys (step (runOps (Shard.init 2 2) [.store ⟨1,0,0⟩, .store ⟨2,0,0⟩, .flushStep, .store ⟨3,0,0⟩,
+      .store ⟨4,0,0⟩, .store ⟨5,0,0⟩]) .crash) = [1, 2, 3, 4, 5] := by
+  constructor
+  · intro o ho; simp at ho; rcases ho with rfl | rfl | rfl | rfl | rfl | rfl <;> rfl
+  · decide
 
 /-- Clean-shutdown clause, full strength (and independent of WAL buffering, which the model of
 this clause never consults): for EVERY history of stores, manual flushes and single
